@@ -88,6 +88,10 @@ func GenCost(rng *PRNG, maxBase int, stalls bool) CostModel {
 	every := []int{1, 1, 1, 4, 16, 64}[rng.Intn(6)]
 	base := int(rng.LogRange(1000, int64(maxBase)))
 	c := CostModel{Every: every, BaseNs: base, JitterNs: rng.Intn(base/2 + 1)}
+	if stalls && rng.Chance(0.4) {
+		c.SetupStallPct = []int{10, 30, 100}[rng.Intn(3)]
+		c.SetupStallMaxUs = int(rng.LogRange(50, 40000))
+	}
 	if stalls && rng.Chance(0.3) {
 		n := rng.Range(1, 3)
 		at := int64(0)
